@@ -53,7 +53,9 @@ var injectKinds = []string{"goto", "labelled-break", "labelled-continue", "selec
 	"defer-in-nonyielding-switch-clause", "select-in-nonyielding-type-switch-clause",
 	// a yield in the initialiser of an else-if whose HEAD condition is true in one round and
 	// false in the next: the initialiser belongs to the else path only
-	"yield-elseif-init-head-taken"}
+	"yield-elseif-init-head-taken",
+	// a defer inside a LABELLED loop that does not yield (the loop stays native)
+	"defer-in-labelled-native-loop"}
 
 // rawInject returns the source text of the construct (placeholders as in templates).
 func rawInject(kind string, tag func() int, control bool) string {
@@ -112,6 +114,8 @@ func rawInject(kind string, tag func() int, control bool) string {
 		return fmt.Sprintf("if len(\"x\") == 2 {\n\tvrt.E(%d)\n} else if «Yield»(73); len(\"x\") == 1 {\n\t«Yield»(72)\n}\nvrt.E(%d)", tag(), tag())
 	case "yield-elseif-init-head-taken":
 		return fmt.Sprintf("for f9 := 0; f9 < 2; f9++ {\n\tif vrt.B(%d, f9 == 0) {\n\t\tvrt.E(%d)\n\t} else if «Yield»(73 + f9); f9 > 5 {\n\t\tvrt.E(%d)\n\t} else {\n\t\t«Yield»(72)\n\t}\n}", tag(), tag(), tag())
+	case "defer-in-labelled-native-loop":
+		return fmt.Sprintf("L9:\n\tfor i9 := 0; i9 < 2; i9++ {\n\t\tdefer vrt.E(%d, i9)\n\t\tif i9 == 1 {\n\t\t\tcontinue L9\n\t\t}\n\t\tvrt.E(%d)\n\t}\n%s\nvrt.E(%d)", tag(), tag(), y("94"), tag())
 	case "yield-if-init-yielding-else":
 		return fmt.Sprintf("if «Yield»(71); len(\"x\") == 2 {\n\tvrt.E(%d)\n} else {\n\t«Yield»(70)\n}", tag())
 	case "yield-for-init-in-func-range":
